@@ -126,6 +126,22 @@ pub fn generate(out: &mut Out, seed: u64, thorough: bool, _outdir: &str) {
             case.sshape = placements(sw, sh, rng.below(PLACEMENTS as u64) as usize);
             case.dshape = placements(dw, dh, rng.below(PLACEMENTS as u64) as usize);
         }
+        // single-pass resizes (integer crop whose height / width equals the destination's) into mutable cropped views with
+        // parent rows and columns around them: the SIMD kernels' leftover-row paths (iter_rows_mut(start_row > 0))
+        if sw > 0 && sh > 0 && rng.chance(1, 8) {
+            let l = rng.below(sw as u64) as u32;
+            let t = rng.below(sh as u64) as u32;
+            let w = rng.range(1, (sw - l) as u64) as u32;
+            let h = rng.range(1, (sh - t) as u64) as u32;
+            let (ndw, ndh) = if rng.chance(1, 2) { (random_size(&mut rng, 30), h) } else { (w, random_size(&mut rng, 30)) };
+            case.crop = CropSpec::Box(l as f64, t as f64, w as f64, h as f64);
+            case.custom = None;
+            case.alg = if rng.chance(1, 2) { AlgSpec::conv(rng.below(7) as usize) } else { AlgSpec::interp(rng.below(7) as usize) };
+            case.dynamic = false;
+            case.sshape = placements(sw, sh, rng.below(PLACEMENTS as u64) as usize);
+            case.dshape = placements(ndw, ndh, *rng.pick(&[2usize, 3, 4]));
+            out.count("single-pass-into-view");
+        }
         case.sbuf = random_comps(&mut rng, pt, case.sshape.buf_len(), mode);
         if case.dynamic && (case.sshape.depth() > 0 || case.dshape.depth() > 0) {
             case.dynamic = false;
